@@ -791,6 +791,9 @@ impl<'tcx> Cx<'tcx> {
                 .unwrap_or_default();
             o.push(("export_name", J::A(attrs)));
             o.push(("no_mangle", J::B(tcx.codegen_fn_attrs(d).flags.contains(rustc_middle::middle::codegen_fn_attrs::CodegenFnAttrFlags::NO_MANGLE))));
+            // names of the type parameters in the order call sites list their type arguments (`substs`)
+            let tps: Vec<J> = ty::GenericArgs::identity_for_item(tcx, d).iter().filter_map(|a| a.as_type()).map(|t| s(format!("{}", t))).collect();
+            o.push(("type_params", J::A(tps)));
         }
         let mut derived = false;
         if let Some(imp) = tcx.impl_of_assoc(root) {
